@@ -232,6 +232,32 @@ Theorem C20_question_verify_none_iff :
 Proof. exact question_verify_none_iff. Qed.
 Print Assumptions C20_question_verify_none_iff.
 
+(* Verify is a function of the question: in a history of verifications done
+   by one process (the model of the sequential loop threads only the list of
+   verdicts) every question gets the verdict it gets when verified alone,
+   wherever and however often it occurs.  The model has no process-wide state
+   because the Go code has none; the harness checks exactly this on question
+   sequences sharing program texts across result types. *)
+Theorem C20_verify_history_is_map :
+  forall (SK : Type) (parse_priv : str -> option SK) (rsa_dec : SK -> bytes -> option bytes)
+         (gcm_open : bytes -> bytes -> option bytes) (b64_dec : str -> option bytes) (run : str -> str)
+         (qs : list question),
+    verify_history SK parse_priv rsa_dec gcm_open b64_dec run qs =
+    map (verify_one SK parse_priv rsa_dec gcm_open b64_dec run) qs.
+Proof. exact verify_history_is_map. Qed.
+Print Assumptions C20_verify_history_is_map.
+
+Theorem C20_verify_history_position :
+  forall (SK : Type) (parse_priv : str -> option SK) (rsa_dec : SK -> bytes -> option bytes)
+         (gcm_open : bytes -> bytes -> option bytes) (b64_dec : str -> option bytes) (run : str -> str)
+         (pre : list question) (q : question) (post : list question),
+    nth_error (verify_history SK parse_priv rsa_dec gcm_open b64_dec run (pre ++ q :: post)) (List.length pre)
+      = Some (verify_one SK parse_priv rsa_dec gcm_open b64_dec run q) /\
+    verify_history SK parse_priv rsa_dec gcm_open b64_dec run [q]
+      = [verify_one SK parse_priv rsa_dec gcm_open b64_dec run q].
+Proof. exact verify_history_position. Qed.
+Print Assumptions C20_verify_history_position.
+
 (* ---------- regression: the function before commit 1e7a3a9 ---------- *)
 
 (* the walk alone decides the statement only among the EXISTING choices … *)
